@@ -900,6 +900,11 @@ def _common(rng, S, cls, pos=''):
   @progress) and part of the payload kind."""
   p = _rich(rng, S)
   d = {}
+  if rng.random() < 0.08:
+    # Optional arguments given explicitly with their empty value.
+    d.update(rng.choice([{'id': None}, {'css_classes': []}, {'styles': {}},
+                         {'id': None, 'css_classes': [], 'styles': {}}]))
+    return d
   if rng.random() < p:
     d['id'] = _cfg(rng, S, f'{cls}.id{pos}', 'id' + str(rng.randint(0, 99)))
   if rng.random() < max(p, 0.4):
@@ -934,6 +939,9 @@ def gen_label(rng, S, cls=None, pos=''):
                  else ['plain', 'https://example.com/a?b=1&c=2'])
     if rng.random() < 0.3:
       d['target'] = _cfg(rng, S, 'Label.target' + pos, '_blank')
+  if rng.random() < 0.08:
+    for f in rng.sample(['tooltip', 'link', 'target'], rng.randint(1, 3)):
+      d.setdefault(f, None)     # `Optional[...] = None` given explicitly
   if rng.random() < 0.25:
     d['interactive'] = True
   return [cls or rng.choice(['Label', 'Label', 'Badge']), d]
@@ -967,6 +975,20 @@ def gen_tab(rng, S, depth=0):
   return t
 
 
+def gen_selected(rng, n):
+  """`selected: int` of a TabControl with n tabs.  The field has no range
+  validation: an index counted from the end, an index below -n and an index
+  >= n (no tab is shown as selected) are legal values like 0..n-1."""
+  r = rng.random()
+  if n and r < 0.5:
+    return rng.randrange(n)
+  if n and r < 0.68:
+    return -rng.randint(1, n)
+  if r < 0.82:
+    return -n - rng.randint(1, 3)
+  return n + rng.choice([0, 0, 1, 4])
+
+
 def gen_control(rng, S, depth=0):
   r = rng.random()
   if r < 0.3 or depth >= 2:
@@ -977,6 +999,8 @@ def gen_control(rng, S, depth=0):
                    for _ in range(rng.randint(0, 3))]
     if rng.random() < 0.6:
       d['name'] = gen_member(rng, S, '@group-name', 'Label')
+    elif rng.random() < 0.2:
+      d['name'] = None
     if rng.random() < 0.2:
       d['interactive'] = True
     return ['LabelGroup', d]
@@ -989,8 +1013,8 @@ def gen_control(rng, S, depth=0):
     d = _common(rng, S, 'TabControl')
     tabs = [gen_tab(rng, S, depth) for _ in range(rng.randint(0, 3))]
     d['tabs'] = tabs
-    if tabs:
-      d['selected'] = rng.randrange(len(tabs))
+    if tabs or rng.random() < 0.5:
+      d['selected'] = gen_selected(rng, len(tabs))
     d['tab_position'] = rng.choice(['top', 'left'])
     return ['TabControl', d]
   d = _common(rng, S, 'ProgressBar') if S.config_hostile else {}
@@ -998,11 +1022,14 @@ def gen_control(rng, S, depth=0):
   for _ in range(rng.randint(0, 3)):
     sp = [['slot', S.new(rng, 'SubProgress.name')] if rng.random() < 0.6
           else ['plain', rng.choice(['Succeeded', 'failedRuns'])],
-          rng.randint(0, 5)]
+          # Steps beyond the total are legal (`value: int`).
+          rng.randint(0, 5) if rng.random() < 0.75
+          else rng.choice([12, 25, 40])]
     if S.config_hostile:
       sp.append(_common(rng, S, 'SubProgress'))
     d['subprogresses'].append(sp)
-  d['total'] = rng.choice([None, 10, 20])
+  # total=0 is refused at construction (ZeroDivisionError / `assert total > 0`).
+  d['total'] = rng.choice([None, None, 10, 20, 1, 3])
   return ['ProgressBar', d]
 
 
@@ -1073,17 +1100,19 @@ def build_control(d, S, mode):
   kw.update(_config_kw(a, S, mode))
   if name in ('Label', 'Badge'):
     if 'tooltip' in a:
-      kw['tooltip'] = (build_control(a['tooltip'][1], S, mode)
+      kw['tooltip'] = (None if a['tooltip'] is None
+                       else build_control(a['tooltip'][1], S, mode)
                        if a['tooltip'][0] == 'ctl'
                        else _textval(a['tooltip'], S, mode))
     if 'link' in a:
-      kw['link'] = _textval(a['link'], S, mode)
+      kw['link'] = None if a['link'] is None else _textval(a['link'], S, mode)
     if 'target' in a:
       kw['target'] = _cfgval(a['target'], S, mode)
     return getattr(C, name)(text=_textval(a['text'], S, mode), **kw)
   if name == 'LabelGroup':
     if 'name' in a:
-      kw['name'] = build_member(a['name'], S, mode)
+      kw['name'] = (None if a['name'] is None
+                    else build_member(a['name'], S, mode))
     return C.LabelGroup(labels=[build_member(x, S, mode) for x in a['labels']],
                         **kw)
   if name == 'Tooltip':
@@ -1200,10 +1229,76 @@ def _no_opaque(j):
 
 
 def snapshot(v):
+  """A deep description of `v` (a string, no reference to `v`): every symbolic
+  field of every node, whatever its value.  Taken immediately before and after
+  a rendering of an object that has not been rendered before (single
+  renderings build a new object per rendering), so that a modification that a
+  second rendering would not repeat is seen as well.  State the library keeps
+  outside the symbolic fields (cached parents, the progress label, element
+  ids derived from id(), caches inside pg.Html objects) is not part of it."""
   try:
     return 'json:' + json.dumps(_no_opaque(pg.to_json(v)), sort_keys=True)
   except Exception:  # pylint: disable=broad-except
-    return 'fmt:' + pg.format(v, compact=True, verbose=True)
+    # pg.Ref nodes and local classes have no JSON form: the same description
+    # read from the symbolic fields.
+    return 'json:' + json.dumps(_describe(v), sort_keys=True)
+
+
+def _describe(v):
+  if isinstance(v, pg.Symbolic):
+    if isinstance(v, pg.List):
+      return [_describe(x) for x in v.sym_values()]
+    out = {str(k): _describe(x) for k, x in v.sym_items()}
+    if not isinstance(v, pg.Dict):
+      out['_type'] = f'{type(v).__module__}.{type(v).__qualname__}'
+    return out
+  if v is None or isinstance(v, (str, int, float, bool)):
+    return v
+  if isinstance(v, (list, tuple)):
+    return [_describe(x) for x in v]
+  if isinstance(v, dict):
+    return {str(k): _describe(x) for k, x in v.items()}
+  return {'_type': 'opaque', 'class': type(v).__name__}
+
+
+_CONTROLS_MODULE = 'pyglove.core.views.html.controls.'
+_MISSING = object()
+
+
+def _changed_field(a, b, owner=None, field=None):
+  """(class, field) of the innermost library control with a member that
+  differs between the JSON values `a` and `b` (None, None: not in a control)."""
+  if type(a) is not type(b):
+    return owner, field
+  if isinstance(a, dict):
+    t = a.get('_type')
+    if t != b.get('_type'):
+      return owner, field
+    ctl = isinstance(t, str) and t.startswith(_CONTROLS_MODULE)
+    for k in sorted(set(a) | set(b)):
+      x, y = a.get(k, _MISSING), b.get(k, _MISSING)
+      if x != y:
+        if ctl:
+          return _changed_field(x, y, t.rsplit('.', 1)[-1], k)
+        return _changed_field(x, y, owner, field)
+  elif isinstance(a, list) and len(a) == len(b):
+    for x, y in zip(a, b):
+      if x != y:
+        return _changed_field(x, y, owner, field)
+  return owner, field
+
+
+def changed_value(before, after, default):
+  """None, or (mechanism, detail) of a value modified by its rendering: the
+  field of the library control that changed, else `default`."""
+  if before == after:
+    return None
+  mech = default
+  if before.startswith('json:') and after.startswith('json:'):
+    owner, field = _changed_field(json.loads(before[5:]), json.loads(after[5:]))
+    if owner is not None:
+      mech = f'render:{owner}.{field}'
+  return mech, f'before: {before}\nafter:  {after}'
 
 
 class Subject:
@@ -1270,7 +1365,7 @@ def evaluate(ctx, subj):
     c['strict_parses'] += 1
     c['unchanged_value_checks'] += 1
     if changed:
-      ctx.violation('value-modified', 'render:' + subj.name, changed, case)
+      ctx.violation('value-modified', changed[0], changed[1], case)
     return text, r, exp
 
   def absent(r, exp):
@@ -1470,8 +1565,7 @@ class TreeSubject(Subject):
     kw = build_opts(o, S, mode)
     before = snapshot(value)
     text = render_tree(self.ctx, value, o, kw)
-    after = snapshot(value)
-    changed = None if before == after else f'before: {before}\nafter:  {after}'
+    changed = changed_value(before, snapshot(value), 'render:' + self.name)
     exp = []
     f = self._filters(o)
     flags = (o.get('enable_summary'), o.get('enable_summary_for_str', True))
@@ -1527,7 +1621,19 @@ class ControlSubject(Subject):
       ctrl = build_control(self.desc, self.S, mode)
     how, co = self.how
     kw = {} if variant is None else {'key_style': variant}
-    before = snapshot(ctrl)
+    # A control as a node of a symbolic tree rendered by the tree view.
+    holder, okw = ctrl, {}
+    if how == 'member':
+      holder = pg.Dict(a=ctrl, b=pg.List([1, ctrl.clone()]))
+    elif how == 'in-list':
+      holder = pg.List([ctrl, pg.Dict(x=ctrl.clone(deep=True))])
+      okw = dict(collapse_level=None, enable_summary_tooltip=False)
+    elif how == 'in-dict':
+      holder = pg.Dict(title='report', body=pg.List([ctrl]))
+      okw = dict(collapse_level=0)
+      if variant is None:
+        okw['key_style'] = 'label'
+    before = snapshot(holder)
     self.ctx.label = 'render:controls/' + how
     try:
       # Controls ignore render arguments; a forced key_style reaches embedded
@@ -1539,13 +1645,11 @@ class ControlSubject(Subject):
           text = pg.to_html_str(ctrl, content_only=co)
         elif how == 'to_html':
           text = ctrl.to_html().to_str(content_only=co)
-        else:   # a control as a member of a symbolic container
-          text = pg.to_html_str(pg.Dict(a=ctrl, b=pg.List([1, ctrl.clone()])),
-                                content_only=co)
+        else:
+          text = pg.to_html_str(holder, content_only=co, **okw)
     finally:
       self.ctx.label = None
-    after = snapshot(ctrl)
-    changed = None if before == after else f'before: {before}\nafter:  {after}'
+    changed = changed_value(before, snapshot(holder), 'render:' + self.name)
     exp = []
     control_expectations(self.desc, self.S, mode, exp)
     return text, exp, changed
@@ -1700,7 +1804,7 @@ def force_interactive(d):
   name, a = d
   if name in ('Label', 'Badge', 'Tooltip', 'LabelGroup'):
     a['interactive'] = True
-  if name == 'LabelGroup' and 'name' in a:
+  if name == 'LabelGroup' and a.get('name') is not None:
     force_interactive(a['name'])
   for x in a.get('labels', []):
     force_interactive(x)
@@ -1723,7 +1827,7 @@ def control_targets(d, path, out):
   if name in ('Label', 'Badge', 'Tooltip', 'TabControl', 'ProgressBar'):
     out.append((path, 'Label' if name == 'Badge' else name))
   if name == 'LabelGroup':
-    if 'name' in a:
+    if a.get('name') is not None:
       control_targets(a['name'], path + ['name'], out)
     for j, x in enumerate(a['labels']):
       control_targets(x, path + ['labels', j], out)
@@ -1813,7 +1917,8 @@ def gen_update(rng, S, descs):
             {'css': rng.choice(['.n1 { color: red; }', '.zz > b { margin: 0; }'])}]
   if cls == 'Label':
     a = t[1]
-    data = ['text'] + [f for f in ('tooltip', 'link') if f in a]
+    data = ['text'] + [f for f in ('tooltip', 'link')
+                       if a.get(f) is not None]
     picked = ([rng.choice(data)] if rng.random() < 0.7
               else rng.sample(data, rng.randint(1, len(data))))
     args = {}
@@ -2131,7 +2236,7 @@ def html_findings(ctx, t_out, h_out, excludes):
   c['strict_parses'] += 2
   c['unchanged_value_checks'] += 2
   if t_changed or h_changed:
-    out.append(('value-modified', t_changed or h_changed))
+    out.append(('value-modified', (t_changed or h_changed)[1]))
   if rt.errors:
     out.append(('malformed', rt.describe() + '\n' + t_text[:1200]))
   def absent(r, exp):
@@ -2479,7 +2584,8 @@ def run_case(ctx, i):
   elif r < 0.76:
     c['control_cases'] += 1
     desc = gen_control(rng, S)
-    how = (rng.choice(['method', 'fn', 'to_html', 'member']),
+    how = (rng.choice(['method', 'fn', 'to_html', 'member', 'method', 'fn',
+                       'to_html', 'member', 'in-list', 'in-dict']),
            rng.random() < 0.7)
     subj = ControlSubject(ctx, S, desc, how, control_class_kinds(desc, set()))
     fp_extra = how
